@@ -27,7 +27,12 @@
  * the trees itself (plain container API, no visitor) and records the path of every
  * non-NULL node; jso and parent_jso are looked up in that table.  A NULL jso (JSON null)
  * has no identity: its path is the parent's path plus the position named by the key or
- * index the callback received.  Paths are run-length encoded ("/0^1000/1") so that
+ * index the callback received.  Every argument is checked for being the real thing: the
+ * parent pointer is looked up in the table; jso_key must be the very pointer stored as the key
+ * of this member's entry in the parent (else "!kid=0" is appended to the key token) and that
+ * entry must hold this node ("!kval=0"); *jso_index must be the position of this node in the
+ * parent array ("!idx=0").  Member names longer than 32 bytes are printed as
+ * "K<length>.<FNV-1a-64>.<first 8 bytes>.<last 8 bytes>".  Paths are run-length encoded ("/0^1000/1") so that
  * deep trees stay printable. */
 #include "common.h"
 #include "jvtext.h"
@@ -110,6 +115,24 @@ static long put_path(FILE *f, long e, int extend, size_t last)
 	return (long)n;
 }
 
+/* a member name: "k<hex>" up to 32 bytes, else "K<length>.<FNV-1a 64 of all bytes>.<first 8 bytes>.<last 8 bytes>" */
+static void put_key(FILE *f, const char *key)
+{
+	size_t i, n = strlen(key);
+	if (n <= 32) {
+		fputc('k', f);
+		if (n == 0) fputc('-', f);
+		for (i = 0; i < n; i++) fprintf(f, "%02x", (unsigned char)key[i]);
+	} else {
+		uint64_t h = 0xcbf29ce484222325ull;
+		for (i = 0; i < n; i++) { h ^= (unsigned char)key[i]; h *= 0x100000001b3ull; }
+		fprintf(f, "K%zu.%016llx.", n, (unsigned long long)h);
+		for (i = 0; i < 8; i++) fprintf(f, "%02x", (unsigned char)key[i]);
+		fputc('.', f);
+		for (i = n - 8; i < n; i++) fprintf(f, "%02x", (unsigned char)key[i]);
+	}
+}
+
 /* ---- the traversals of one line */
 #define MAXT 16
 struct trav {
@@ -170,12 +193,23 @@ static int cb_common(int id, struct json_object *jso, int flags, struct json_obj
 	fputc(' ', f);
 	if (key && idx) fputs("BOTH", f);
 	else if (key) {
-		size_t i, n = strlen(key);
-		fputc('k', f);
-		if (n == 0) fputc('-', f);
-		for (i = 0; i < n; i++) fprintf(f, "%02x", (unsigned char)key[i]);
+		put_key(f, key);
+		/* identity: jso_key must be the key pointer of this member's entry in the parent,
+		 * and that entry must hold this very node */
+		if (parent && json_object_get_type(parent) == json_type_object) {
+			struct lh_entry *e = lh_table_lookup_entry(json_object_get_object(parent), key);
+			if (!e) fputs("!kid=0:nomember", f);
+			else if ((const char *)lh_entry_k(e) != key) fputs("!kid=0", f);
+			else if ((struct json_object *)lh_entry_v(e) != jso) fputs("!kval=0", f);
+		} else fputs("!kparent=0", f);
 	}
-	else if (idx) fprintf(f, "i%zu", *idx);
+	else if (idx) {
+		fprintf(f, "i%zu", *idx);
+		/* jso_index must be the real index of this node in the real parent */
+		if (!parent || json_object_get_type(parent) != json_type_array) fputs("!iparent=0", f);
+		else if (*idx >= json_object_array_length(parent) || json_object_array_get_idx(parent, *idx) != jso)
+			fputs("!idx=0", f);
+	}
 	else fputc('-', f);
 	fprintf(f, " %ld", depth);
 	if (ntr > 1) {
